@@ -106,4 +106,14 @@ TypeOK == /\ highest \in 0..MaxSeq
 (* Graph dump for replay: one line per transition.                         *)
 DumpInit == PrintT("INIT " \o ToJson(View))
 DumpEdge == PrintT("EDGE " \o ToJson(View) \o "\t" \o ToJson(act') \o "\t" \o ToJson(View'))
+(***************************************************************************)
+(* `act` (the step's observed outcome) is not part of the VIEW: as a state  *)
+(* predicate an invariant over act would be evaluated only for the first     *)
+(* representative TLC finds of each view class.  The action forms below are  *)
+(* evaluated for EVERY transition TLC generates; the configurations that use *)
+(* a VIEW check these.                                                       *)
+(***************************************************************************)
+AtMostOnceA == [][AtMostOnce']_vars
+AcceptsFreshA == [][AcceptsFresh']_vars
+
 =============================================================================
